@@ -48,7 +48,7 @@ TERM_POOL = [
     {"name": "b:ev", "label": "event", "definition": "d", "uri": "http://x/other"},
     {"name": "b:ev", "label": "event", "definition": "d", "comment": "c"},
 ]
-VALUES = ["x", "y", "species"]
+VALUES = ["x", "y", "species", " y ", "x\n"]  # values are data: blanks and line ends included
 
 
 def tag_pool():
@@ -220,8 +220,13 @@ class C19(Prop):
             tags = [self._mk_tag(i) for i in c["tags"]]
             out["classification"] = classification_encoding(tags, enc)
             out["multilabel"] = [int(x) for x in multilabel_encoding(tags, enc)]
-            ptags = [data.PredictedTag(tag=self._mk_tag(i), score=float(s)) for i, s in c["ptags"]]
+            # predicted tags are built from the vocabulary's own Tag objects where possible (users share objects): constructing
+            # them must not disturb the encoder or the objects
+            by_index = {i: t for i, t in zip(c["vocab"], vocab)}
+            ptags = [data.PredictedTag(tag=by_index.get(i) or self._mk_tag(i), score=float(s)) for i, s in c["ptags"]]
             out["prediction"] = [Fraction(float(x)) for x in prediction_encoding(ptags, enc)]
+            out["identity_after"] = all(enc.encode(enc.decode(i)) == i for i in range(len(vocab)))
+            out["vocab_unchanged"] = [self._tag_tokens(tok, t) for t in vocab] == out["vocab_tok"]
             for k in ("classification",):
                 if out[k] is not None:
                     out[k] = int(out[k])
@@ -340,6 +345,8 @@ class C19(Prop):
         if o["res"][0] != "ok":
             fail("raised", f"raised {o['res']} {o.get('msg')}")
             return fails
+        if c["kind"] == "encode" and (o.get("identity_after") is False or o.get("vocab_unchanged") is False):
+            fail("encoder-corrupted", "building predicted tags from the vocabulary's Tag objects changed those objects / broke encode(decode(i)) == i")
         if c["kind"] == "encode":
             vocab, pool = o["vocab_tok"], o["pool_tok"]
             for i, t in enumerate(pool):
